@@ -178,6 +178,11 @@ def _exhaust_generator(executor, saver, load_wrapper, data_loader, rechunk, _tim
 
     mailbox.cleanup()
     executor.shutdown(wait=True)
+    if saver.got_exception is not None:
+        # The saver runs in a mailbox thread: if it failed after the last
+        # chunk was read here, nobody has noticed yet. Do not move or
+        # replace anything with the broken result.
+        raise saver.got_exception
 
 
 def _get_meta_data_and_compressor(backend, source_directory, compressor, target_size_mb):
